@@ -68,7 +68,7 @@ pub fn target_worlds(rng: &mut Rng, cases: &[Case], n_worlds: usize, faulted: us
 pub fn run(ctx: &Ctx) -> ! {
     let mut ev = Evidence::default();
     let mut rep = Reporter::new(ctx);
-    let n_gen = if ctx.quick() { 6_000 } else { 150_000 };
+    let n_gen = if ctx.quick() { 20_000 } else { 150_000 };
     let cases = workload(ctx, n_gen, &mut ev);
     let mut rng = Rng::new(crate::prng::mix(ctx.seed, 0xC16));
     let mut samples = vec![];
